@@ -85,7 +85,10 @@ def parseGItemFull (j : Json) : Except String GItem := do
     | .error _ => pure []
     | .ok .null => pure []
     | .ok v => do let a ← v.getArr?; a.toList.mapM parseKid
-  pure { it with kids := kids }
+  let hasSeq := match j.getObjVal? "has_seq" with
+    | .ok (.bool b) => b
+    | _ => !kids.isEmpty
+  pure { it with kids := kids, hasSeq := hasSeq }
 
 def parseGroup (j : Json) : Except String Group := do
   let tid ← optStr16 j "template_id"
@@ -153,7 +156,7 @@ def kidJson (k : Kid) : Json := Json.mkObj [("name", k.name), ("vt", k.vt), ("re
 
 def itemJson (it : GItem) : Json := Json.mkObj [("name", it.name), ("vt", it.vt), ("rel", it.rel), ("value", it.value),
   ("graphic", it.graphic), ("ref", match it.ref with | none => Json.null | some r => Json.arr #[r.cls, r.inst]),
-  ("kids", Json.arr (it.kids.map kidJson).toArray)]
+  ("kids", Json.arr (it.kids.map kidJson).toArray), ("has_seq", Json.bool it.hasSeq)]
 
 def optS : Option String → Json | none => Json.null | some s => Json.str s
 def pairsJson (l : List (String × String)) : Json := Json.arr (l.map (fun (a, b) => Json.arr #[Json.str a, Json.str b])).toArray
@@ -177,8 +180,12 @@ def handlers : List (String × Handler) := [
       | some p => specKind k p && specFilters k p f
       | none => false)
     pure (okJson (Json.mkObj [("spec", natsToJson idx), ("consistent", Json.bool (ps.all Params.consistent)),
+      ("graphics_valid", Json.bool (ps.all Params.graphicsValid)), ("sound", Json.bool (ps.all (fun p => (mkGroup p).sound))),
       ("context_ok", Json.bool (ps.all (fun p => p.ctxA.all contextItemOK && p.ctxB.all contextItemOK))),
       ("clean_names", Json.bool (ps.all (fun p => p.evaluations.all (fun e => !reservedCodeNames.contains e.1))))]))),
+  ("sound", fun j => do
+    let gs ← (← getArr j "groups").toList.mapM parseGroup
+    pure (okJson (Json.arr (gs.map (fun g => Json.bool g.sound)).toArray))),
   ("args", fun j => do
     let k ← parseKind (← getStr j "method")
     let gt ← match j.getObjVal? "gt" with
